@@ -94,7 +94,7 @@ def c14(ck, tmp):
     from gaftools.gfa import GFA
     from gaftools.cli import find_path
     rng = ck.rng
-    ngraphs = 300 if ck.tier == "quick" else 12000
+    ngraphs = 300 if ck.tier == "quick" else 6000
     for it in range(ngraphs):
         text, ids = small_gfa(rng)
         gfa = os.path.join(tmp, "w.gfa")
@@ -413,7 +413,7 @@ def run_history(ck, rng):
 def c15(ck, tmp):
     rng = ck.rng
     quick = ck.tier == "quick"
-    for it in range(400 if quick else 20000):
+    for it in range(400 if quick else 10000):
         n, edges = rand_graph(rng)
         ids = ["v%d" % i for i in range(n)] if rng.random() < 0.6 else [str(10 - i) for i in range(n)]
         text, ids = graph_text(n, edges, rng, ids)
@@ -442,7 +442,7 @@ def c15(ck, tmp):
             run_algos(ck, text, ids, rng, tmp, "exhaustive-multigraph<=3")
     flush_algos(ck)
     ck.extra["exhaustive_scopes"] = ["all simple graphs on <= %d labelled nodes" % top, "all multigraphs on <= 3 nodes with <= 2 links per slot (self-links included), <= 4 links"]
-    for it in range(250 if quick else 8000):
+    for it in range(250 if quick else 4000):
         run_history(ck, rng)
     flush_algos(ck)
     mid_graph(ck, rng, tmp)
